@@ -763,13 +763,23 @@ func (e *Env) callExpr(n *ast.CallExpr) (Val, types.Type) {
 			panic("funcid: unknown function " + key)
 		}
 		return IntC(int64(e.x.ld.funcID(f))), intT
+	case "strpos":
+		// strpos(): byte offset reached by the (innermost) range over a string
+		for i := len(e.st.iters) - 1; i >= 0; i-- {
+			if e.st.iters[i].pos != nil {
+				return e.st.iters[i].pos, intT
+			}
+		}
+		panic("strpos(): no string iteration in scope")
 	case "visited":
 		// visited(k): k has already been produced by the (innermost) map range loop
-		if len(e.st.iters) == 0 {
-			panic("visited(): no map iteration in scope")
+		for i := len(e.st.iters) - 1; i >= 0; i-- {
+			if e.st.iters[i].visited != nil {
+				v, _ := e.eval(n.Args[0])
+				return Select(e.st.iters[i].visited, e.x.scalar(v)), boolT
+			}
 		}
-		v, _ := e.eval(n.Args[0])
-		return Select(e.st.iters[len(e.st.iters)-1].visited, e.x.scalar(v)), boolT
+		panic("visited(): no map iteration in scope")
 	case "anykey", "allkeys":
 		// anykey(table, k, body): disjunction / conjunction over the keys of a constant table
 		mv, _ := e.eval(n.Args[0])
